@@ -7,4 +7,33 @@ McTxEp == [t \in McTx |-> IF t = "x" THEN 0 ELSE 1]
 McTxEp3 == [t \in McTx |-> IF t = "x" THEN 0 ELSE IF t = "y" THEN 1 ELSE 2]
 \* before the run every transaction was submitted to the node, or none (they are only known from blocks)
 McPend == {McTx, {}}
+(* ---- indirect fork switches (new head is not the delivered block): MCPoolFork_ind*.cfg, SPECIFICATION IndSpec ----
+   With 3 deputies (Q = 2) they need five blocks: a trunk block that becomes stable by a later confirm packet, the
+   head's fork, a higher fork whose leaf is at an odd distance from genesis and the block on a third fork that makes
+   the node look at all leaves again.  Family: one trunk block on genesis, at least two forks on it, all of them
+   single blocks except one, which carries one or more leaves (every 5-block tree in which TLC finds ind > 0 is of
+   this shape; which behaviours are replayed is selected by ind, not by the shape).  One epoch, so the transactions
+   are interchangeable and the universes are enumerated up to renaming: every transaction in at most one block,
+   named in the order of the blocks that carry them. *)
+McTxEp1 == [t \in McTx |-> 0]
+McTx2 == {"x", "y"}
+McTxEp1of2 == [t \in McTx2 |-> 0]
+McPend2 == {McTx2, {}}
+Kids(f, x) == {b \in Block : f[b] = x}
+McTrunkStar == {f \in Trees : /\ Kids(f, G) = {1} /\ Cardinality(Kids(f, 1)) >= 2
+                              /\ \E m \in Kids(f, 1) : Kids(f, m) # {} /\ \A b \in Block \ {1, m} : Kids(f, b) = {}}
+Rank(t) == CASE t = "x" -> 1 [] t = "y" -> 2 [] t = "z" -> 3
+Canon == /\ \A a, b \in Block : a # b => txs[a] \cap txs[b] = {}
+         /\ \A a, b \in Block : \A t \in txs[a], u \in txs[b] : a < b => Rank(t) < Rank(u)
+         /\ \A b \in Block : \A t \in txs[b] : \A u \in Tx : Rank(u) < Rank(t) => \E a \in Block : u \in txs[a]
+IndInit == InitIn(McTrunkStar) /\ Canon
+IndSpec == IndInit /\ [][Next]_vars
+\* quick: one numbering per shape (blocks numbered level by level; the numbering only decides the model's tie-break
+\* between leaves of equal height - the real node breaks ties by block hash)
+McTrunkStarLevels == {f \in McTrunkStar : \A b \in 1..(NB - 1) : f[b] <= f[b + 1]}
+IndInitQ == InitIn(McTrunkStarLevels) /\ Canon
+IndSpecQ == IndInitQ /\ [][Next]_vars
+\* thorough: the same family, any placement of the transactions (a transaction may be in blocks of several forks)
+IndInitAny == InitIn(McTrunkStar)
+IndSpecAny == IndInitAny /\ [][Next]_vars
 ====
